@@ -125,7 +125,37 @@ def fill(claim, na):
           'not tracked.',
           'unknown origins are never flagged (may miss, does not invent); numpy view/copy table '
           'and accepted output parameters listed in sa/own.py / sa/rules/c03.py', 'C03')
-    for pid in ['C01', 'C04', 'C07', 'C09', 'C10', 'C11', 'C12',
+    claim('C10', 'sibling-protocol agreement over the CouplingModel.add_* family (guard shape, '
+          'must-precede on the CFG, value-depends-on dataflow, argument-role checks) + flag '
+          'exhaustiveness of representation converters + interface/table agreement of term classes',
+          PARTIAL + 'Every add_* method with a plus_hc parameter (9 siblings, derived from the '
+          'class) contains the explicit_plus_hc guard (drop the explicit h.c. or halve the '
+          'strength that is later used) before any term is added, and a trailing plus_hc block '
+          'that adds the conjugate with np.conj(strength) and np.conj(lambda_), hc operator names, '
+          'reversed geometry (u1/u2 swapped, -dx, reversed operator order) and plus_hc=False on '
+          'recursion; calc_H_bond / calc_H_MPO / build_full_H_from_mpo consult or forward '
+          'explicit_plus_hc; term classes implement the interface MPOGraph.from_terms uses; merge '
+          'key of MultiCouplingTerms = overwritten fields; equal terms accumulate; add_* reach '
+          'the Jordan-Wigner decision. Equality of the dense matrices of the representations is '
+          'not decided.', 'trusts python ast, the CFG; operator-parameter names matched by the '
+          'naming convention op*/ops*/opname/term', 'C10')
+    claim('C12', 'coupled-update rules on the Site operator registries + parameter-family '
+          'coherence dataflow + must-pass-through of Jordan-Wigner entry points + ownership of '
+          'aliasing attributes',
+          PARTIAL + 'add_op/remove_op/rename_op keep attribute, opnames, need_JW_string, hc_ops '
+          '(both directions) and JW_exponent in step; JW need of a product name is a parity and hc '
+          'of a product reverses the factors; GroupedSite puts JW on the sub-sites left of a '
+          'fermionic operator with two independent working lists and forwards need_JW / hc; '
+          'numbered parameter families (ops1/sites1 vs ops2/sites2) are not mixed in index '
+          'expressions; loops do not use a constant element instead of the loop variable; every '
+          'API placing named operators on sites (expectation_value_term, correlation_function, '
+          'term_correlation_function_*, apply_local_op, term handlers, order_combine_term) reaches '
+          'the Jordan-Wigner decision with the documented branch structure; TermList does not '
+          'write into a strength array it may share. Commutators/anticommutators as dense '
+          'matrices and the documented operator tables are not decided.',
+          'trusts python ast; several registry checks match normalised statements of add_op / '
+          'remove_op / rename_op (listed in sa/rules/c12.py)', 'C12')
+    for pid in ['C01', 'C04', 'C07', 'C09', 'C11',
                 'C13', 'C16', 'C19']:
         na(pid, 'static rule planned in DESIGN.md but not built yet (work in progress); not '
            'claimed until its check exists')
